@@ -679,8 +679,24 @@ func executeDirectives(inst *Instance, filename string,
 	return nil
 }
 
-func startServers(serverList []Server, inst *Instance, restartFds map[string]restartTriple) error {
+func startServers(serverList []Server, inst *Instance, restartFds map[string]restartTriple) (startErr error) {
 	errChan := make(chan error, len(serverList))
+
+	// if any server fails to start listening, do not leave
+	// the sockets this attempt has already opened behind
+	opened := len(inst.servers)
+	defer func() {
+		if startErr != nil {
+			for _, s := range inst.servers[opened:] {
+				if s.listener != nil {
+					s.listener.Close()
+				}
+				if s.packet != nil {
+					s.packet.Close()
+				}
+			}
+		}
+	}()
 
 	// used for signaling to error logging goroutine to terminate
 	stopChan := make(chan struct{})
@@ -773,6 +789,9 @@ func startServers(serverList []Server, inst *Instance, restartFds map[string]res
 		if pc == nil {
 			pc, err = s.ListenPacket()
 			if err != nil {
+				if ln != nil {
+					ln.Close()
+				}
 				return fmt.Errorf("ListenPacket: %v", err)
 			}
 		}
